@@ -434,33 +434,50 @@ func stringParts(p *core.Prog, e *core.Expr) ([]strPart, bool) {
 	return out, true
 }
 
-// disjuncts: the boolean v is a φ-encoded `a || b || ...` computed before it
-// is tested: returns the facts any one of which makes it true (nil when v is
-// not of that form).
-func disjuncts(p *core.Prog, v ssa.Value) []core.Fact {
+// disjuncts: the boolean v is a φ-encoded `a || b || ...` (want true) or
+// `a && b && ...` (want false) computed before it is tested, possibly carried
+// round a loop: returns the facts any one of which gives v the wanted value
+// (nil when v is not of that form).
+func disjuncts(p *core.Prog, v ssa.Value, want bool) []core.Fact {
+	return disjunctsRec(p, v, want, map[ssa.Value]bool{})
+}
+
+func disjunctsRec(p *core.Prog, v ssa.Value, want bool, seen map[ssa.Value]bool) []core.Fact {
 	ph, ok := v.(*ssa.Phi)
-	if !ok {
+	if !ok || seen[v] {
 		return nil
 	}
+	seen[v] = true
+	wantS := map[bool]string{true: "true", false: "false"}[want]
 	var out []core.Fact
 	for i, e := range ph.Edges {
 		pred := ph.Block().Preds[i]
 		if c, isC := e.(*ssa.Const); isC && c.Value != nil {
-			if c.Value.ExactString() != "true" {
+			if c.Value.ExactString() != wantS {
 				continue
 			}
 			iff, isIf := pred.Instrs[len(pred.Instrs)-1].(*ssa.If)
 			if !isIf {
-				return nil
+				if ph.Block().Dominates(pred) {
+					return nil // set to the wanted constant somewhere in a loop: not this form
+				}
+				continue // the initial value of a loop-carried flag
 			}
 			out = append(out, p.FactOf(core.Guard{Cond: iff.Cond, Pol: pred.Succs[0] == ph.Block(), If: iff}))
 			continue
 		}
-		if inner := disjuncts(p, e); inner != nil {
+		if _, isPhi := e.(*ssa.Phi); isPhi {
+			if seen[e] {
+				continue
+			}
+			inner := disjunctsRec(p, e, want, seen)
+			if inner == nil {
+				return nil
+			}
 			out = append(out, inner...)
 			continue
 		}
-		out = append(out, p.FactOf(core.Guard{Cond: e, Pol: true}))
+		out = append(out, p.FactOf(core.Guard{Cond: e, Pol: want}))
 	}
 	return out
 }
